@@ -52,6 +52,7 @@ class WeaveError(Exception):
 ITEM_KW = {
     "fn": "fn", "struct": "struct", "enum": "enum", "const": "const",
     "type": "type", "trait": "trait", "macro": "macro_rules", "impl": "impl",
+    "macrocall": "<expanded invocation of a local macro_rules!>",
 }
 _src_cache = {}
 
@@ -350,15 +351,127 @@ def _line_start_or(s, pos):
     return p if not s[p:pos].strip() else pos
 
 
+def expand_macro_call(rel, name, nth, within=None):
+    """R22: the nth invocation `name!( .. )` of a local single-arm `macro_rules! name` in `rel` is expanded textually,
+    the way rustc does for this shape: fragment variables `$x` (ident / expr / literal / ty) are substituted by the
+    comma-separated arguments, a trailing `$($v:tt)*` takes the rest, `paste::item! { .. }` is unwrapped and its
+    `[<a $x b>]` groups are concatenated into one identifier.  Returns (text, line of the invocation)."""
+    src, toks = read_repo(rel)
+    texts = [t.text for t in toks]
+    # --- the definition
+    d = None
+    for i, t in enumerate(toks):
+        if t.kind == "id" and t.text == "macro_rules" and texts[i + 1] == "!" and texts[i + 2] == name:
+            d = i
+            break
+    if d is None:
+        raise WeaveError(f"{rel}: macro_rules! {name} not found")
+    ob = d + 3
+    cb = match_close(toks, ob)
+    po = ob + 1
+    if toks[po].text != "(":
+        raise WeaveError(f"{rel}: macro_rules! {name}: unsupported arm shape")
+    pc = match_close(toks, po)
+    params, k = [], po + 1
+    while k < pc:
+        if texts[k] == "$" and texts[k + 1] == "(":
+            # $($v:tt)*  -- the rest
+            params.append(("rest", texts[k + 3]))
+            k = match_close(toks, k + 1) + 2
+        elif texts[k] == "$":
+            params.append(("one", texts[k + 1]))
+            k += 4          # $ name : kind
+        else:
+            k += 1          # separator
+    arrow = pc + 1
+    while texts[arrow] != "{":
+        arrow += 1
+    bo, bc = arrow, match_close(toks, arrow)
+    if bc + 1 < cb and texts[bc + 1] == ";" and bc + 2 < cb:
+        raise WeaveError(f"{rel}: macro_rules! {name} has more than one arm")
+    body = src[toks[bo].end:toks[bc].start]
+    # --- the invocation
+    lo, hi = 0, len(toks)
+    if within:
+        w = norm(within)
+        kk = _find_sub(texts, w, 0)
+        if kk < 0:
+            raise WeaveError(f"{rel}: enclosing block `{within}` not found")
+        b = kk + len(w)
+        while toks[b].text != "{":
+            b += 1
+        lo, hi = b, match_close(toks, b)
+    count, inv = 0, None
+    for i in range(lo, hi):
+        if toks[i].kind == "id" and texts[i] == name and texts[i + 1] == "!" and texts[i + 2] == "(" and texts[i - 1] != "macro_rules":
+            count += 1
+            if count == nth:
+                inv = i
+                break
+    if inv is None:
+        raise WeaveError(f"{rel}: invocation {nth} of {name}! not found")
+    ao, ac = inv + 2, match_close(toks, inv + 2)
+    args, dep, cur = [], 0, ao + 1
+    for k in range(ao + 1, ac):
+        tx = texts[k]
+        if toks[k].kind == "punct" and tx in "([{":
+            dep += 1
+        elif toks[k].kind == "punct" and tx in ")]}":
+            dep -= 1
+        elif tx == "," and dep == 0 and len(args) < len(params) - 1:
+            args.append(src[toks[cur].start:toks[k - 1].end].strip())
+            cur = k + 1
+    last = src[toks[cur].start:toks[ac - 1].end].strip() if cur < ac else ""
+    args.append(re.sub(r"\s+", "", last) if params and params[-1][0] == "rest" else last)
+    if len(args) != len(params):
+        raise WeaveError(f"{rel}: {name}! invocation {nth}: {len(args)} arguments for {len(params)} parameters")
+    out = body
+    for (kind, pn), a in zip(params, args):
+        if kind == "rest":
+            out = re.sub(r"\$\(\s*\$" + pn + r"\s*\)\s*\*", lambda m_: a, out)
+        else:
+            out = re.sub(r"\$" + pn + r"\b", lambda m_: a, out)
+    # paste::item! { .. } -> its contents, with [< .. >] groups glued
+    m = re.search(r"paste::item!\s*\{", out)
+    if m:
+        depth, j = 1, m.end()
+        while depth:
+            if out[j] == "{":
+                depth += 1
+            elif out[j] == "}":
+                depth -= 1
+            j += 1
+        out = out[:m.start()] + out[m.end():j - 1] + out[j:]
+    out = re.sub(r"\[<\s*([^<>\]]*?)\s*>\]", lambda m_: re.sub(r"\s+", "", m_.group(1)), out)
+    if "$" in out:
+        raise WeaveError(f"{rel}: {name}! expansion still contains `$`")
+    line = src.count("\n", 0, toks[inv].start) + 1
+    return out.strip() + "\n", line
+
+
 def weave_item(hdr, subs, stats):
     kind, name, rel = hdr["kind"], hdr["name"], hdr["file"]
     what = f"{rel}::{name}"
-    src, start, end = locate_item(rel, kind, name, hdr.get("in"), hdr.get("nth", 1))
-    ot = OText.from_source(src, start, end)
-    orig_text = ot.s
-    first_line = src.count("\n", 0, start) + 1
-    last_line = src.count("\n", 0, end) + 1
     log = []
+    if kind == "macrocall":
+        text, line = expand_macro_call(rel, name, hdr.get("nth", 1), hdr.get("in"))
+        ot = OText(text, [line] * len(text))
+        orig_text = ot.s
+        first_line = last_line = line
+        log.append({"rule": "R22 textual expansion of one invocation of a local single-arm macro_rules! (fragment substitution, paste identifier gluing)",
+                    "before": f"{name}!(..) invocation {hdr.get('nth', 1)} at line {line}", "after": "the function it generates", "count": 1})
+        kind = "fn"
+        mm_ = re.search(r"\bfn\s+(\w+)", text)
+        if not mm_:
+            raise WeaveError(f"{what}: the expansion is not a function")
+        name = mm_.group(1)
+        what = f"{rel}::{name}"
+    else:
+        src, start, end = locate_item(rel, kind, name, hdr.get("in"), hdr.get("nth", 1))
+        ot = OText.from_source(src, start, end)
+        orig_text = ot.s
+        first_line = src.count("\n", 0, start) + 1
+        last_line = src.count("\n", 0, end) + 1
     opts = {d["op"] for d in subs}
     if "keepattrs" not in opts:
         strip_attrs(ot, log)
@@ -988,7 +1101,7 @@ def build_unit(template, canaries=False):
                 h2 = dict(hdr)
                 h2["canary"] = True
                 subs2 = [d for d in subs if d["op"] != "rename"] + [
-                    {"op": "rename", "name": _short(hdr["name"]) + "__canary"}]
+                    {"op": "rename", "name": _short(meta["name"].split("::")[-1] if hdr["kind"] == "macrocall" else hdr["name"]) + "__canary"}]
                 ot2, _ = weave_item(h2, subs2, {})
                 emit(ot2, {"file": hdr["file"], "item": meta["name"], "kind": "fn", "canary": True})
     return "\n".join(out_lines) + "\n", line_map, metas, stats
